@@ -57,7 +57,7 @@ BOUNDS = {
     'quick': 'box shapes 1x1,2x3,3x2,8x8,0x2,2x0; image shapes 5x6,1x1,3x4,6x2; weights ones/checker/antichecker/'
              'dyadic fractions with zeros; dtypes int64,float64,Quantity[Jy]; layouts C and strided view of a '
              'larger buffer; fills 0,7,NaN,+inf; copy False/True; user mask None/all False/checker/all True',
-    'thorough': 'quick plus box shapes 1x4,4x1,5x5,10x11,0x0; image shapes 1x5,7x1,2x2,8x8,0x3,3x0; non-dyadic '
+    'thorough': 'quick plus box shapes 1x4,4x1,5x5,10x7,0x0; image shapes 1x5,7x1,2x2,4x4,0x3,3x0; non-dyadic '
                 'weights; dtypes int32,uint16,float32; Fortran-ordered images; fill -inf and -2.5 (float data)',
 }
 ASSUMPTIONS = ['numpy ndarray.tolist()/tobytes() and Quantity.to_value are trusted to read results back',
@@ -81,8 +81,8 @@ _Q = dict(
     dmasks=['none', 'allfalse', 'checker', 'alltrue'],
 )
 _T = dict(
-    boxes=_Q['boxes'] + [(1, 4), (4, 1), (5, 5), (10, 11), (0, 0)],
-    images=_Q['images'] + [(1, 5), (7, 1), (2, 2), (8, 8), (0, 3), (3, 0)],
+    boxes=_Q['boxes'] + [(1, 4), (4, 1), (5, 5), (10, 7), (0, 0)],
+    images=_Q['images'] + [(1, 5), (7, 1), (2, 2), (4, 4), (0, 3), (3, 0)],
     weights=_Q['weights'] + ['nondyadic'],
     dtypes=_Q['dtypes'] + ['int32', 'uint16', 'float32'],
     layouts=['C', 'view', 'F'],
